@@ -417,7 +417,37 @@ func runC13(e *sim.Env) {
 			last := set[len(set)-1].DeepCopy()
 			basis := tip.Index()
 			stale := false
-			if e.Chance(1, 3) && tip.Height > net.Allow()+1 {
+			if e.Chance(1, 3) {
+				// a block confirms the first parents, and the set is asked for
+				// before anything else looks at the pool: the transaction (proofs as
+				// of the old tip) still has to come back with its remaining parents
+				j := e.Range(1, len(parents))
+				blk := gen.AssembleBlock(e, net, tip.L.State, tree.Timestamp(e, tip, now, false), types.VoidAddress, nil, set[:j], true)
+				if nn, aerr := tree.AddForeign(tip, blk); aerr == nil {
+					var berr error
+					e.Guard("C13.panic", "AddBlocks", func() { berr = s.cm.AddBlocks([]types.Block{blk}) })
+					if berr != nil {
+						e.Violationf("C13.valid-accepted", "confirming-block", "a block confirming pooled transactions was rejected: %v", berr)
+					}
+					tip = nn
+					// the caller's copy, brought to the new tip: inputs created by
+					// the confirmed parents are ordinary elements now, those of the
+					// parents still pooled stay ephemeral
+					pooledOut := map[types.SiacoinOutputID]bool{}
+					for _, pt := range set[j : len(set)-1] {
+						id := pt.ID()
+						for k := range pt.SiacoinOutputs {
+							pooledOut[pt.SiacoinOutputID(id, k)] = true
+						}
+					}
+					if fresh, ok := refreshV2(last, tip.L, pooledOut); ok {
+						last, basis = fresh, tip.Index()
+					} else {
+						stale = true
+					}
+					e.Probe("txnset_after_parents_confirmed")
+				}
+			} else if e.Chance(1, 3) && tip.Height > net.Allow()+1 {
 				// hand it over with proofs as of the parent block
 				if old, ok := refreshV2(last, tip.Parent.L, map[types.SiacoinOutputID]bool{}); ok {
 					last, basis, stale = old, tip.Parent.Index(), true
@@ -465,7 +495,7 @@ func hasEphemeral(t types.V2Transaction) bool {
 func init() {
 	register(&Prop{
 		ID: "C13", Run: runC13, Quick: 700, Thorough: 20000, Level: "exploration",
-		Rule:        "one run = fork tree handed to the node (1 run in 10 with a 150-230 block stretch), then 4-14 rebases of a v2 transaction set valid at a drawn applied index `from` (confirmed/ephemeral/mixed parents, contract revisions, renewals, storage proofs, expirations, transactions that get confirmed on the way) to a drawn index `to` on the same or another branch, or with a corrupted basis / proof bit / leaf index; then two rounds of a drawn dependency DAG pooled on the node and V2TransactionSet asked for its last transaction (tip or stale basis); oracles: error iff required, same transactions minus confirmed ones in order, every element == reference ledger at `to`, ephemeral->confirmed replacement, returned sets in dependency order with basis == tip and accepted by a fresh pool; distinct = abstract trace (revert/apply length buckets, corruption, error); non-trivial = a rebase across a fork or a DAG query",
+		Rule:        "one run = fork tree handed to the node (1 run in 10 with a 150-230 block stretch), then 4-14 rebases of a v2 transaction set valid at a drawn applied index `from` (confirmed/ephemeral/mixed parents, contract revisions, renewals, storage proofs, expirations, transactions that get confirmed on the way) to a drawn index `to` on the same or another branch, or with a corrupted basis / proof bit / leaf index; then two rounds of a drawn dependency DAG pooled on the node and V2TransactionSet asked for its last transaction (tip basis, stale basis, or right after a block confirmed some of its parents and before any other pool query); oracles: error iff required, same transactions minus confirmed ones in order, every element == reference ledger at `to`, ephemeral->confirmed replacement, returned sets in dependency order with basis == tip and accepted by a fresh pool; distinct = abstract trace (revert/apply length buckets, corruption, error); non-trivial = a rebase across a fork or a DAG query",
 		Real:        []string{"chain.Manager (UpdateV2TransactionSet, V2TransactionSet, AddV2PoolTransactions)", "chain.DBStore"},
 		Stub:        []string{"disk: simdisk.DB"},
 		Assumptions: []string{"distances up to 100 must be supported and distances from 200 must be rejected; in between only absence of panics and correctness on success are demanded"},
